@@ -49,6 +49,7 @@ struct LibExpect {
     blocks: Vec<String>,
     lines: Vec<String>,
     has_error: bool,
+    stack_overflow: bool,
 }
 
 /// what the library pipeline (separate arenas, mode M0) says about `src`
@@ -57,7 +58,7 @@ fn lib_expect(ctx: &Ctx, src: &str, filename: &str) -> Result<LibExpect, String>
     let arena = &ctx.main;
     let frame = &ctx.frame;
     let r = std::panic::catch_unwind(std::panic::AssertUnwindSafe(|| {
-        let mut e = LibExpect { blocks: vec![], lines: vec![], has_error: false };
+        let mut e = LibExpect { blocks: vec![], lines: vec![], has_error: false, stack_overflow: false };
         let lexer = Lexer::new(src, arena);
         let mut parser = Parser::new(lexer, arena);
         let (root, perr) = parser.parse_program();
@@ -79,7 +80,21 @@ fn lib_expect(ctx: &Ctx, src: &str, filename: &str) -> Result<LibExpect, String>
         rt.run_with_analysis(root, &resolver.facts, resolver.optimization_plan.as_ref());
         e.lines = rt.output.iter().map(|v| format!("{v}")).collect();
         if !rt.errors.diagnostics.is_empty() {
-            e.blocks.push(rt.errors.render_ansi(src, filename).as_str().to_string());
+            let rendered = rt.errors.render_ansi(src, filename).as_str().to_string();
+            // Where exactly the native stack budget runs out (which sub-expression of the
+            // recursive call) depends on the frames below the interpreter, which differ
+            // between the harness process and naija: for a stack overflow only the headline
+            // is the library's prediction, not the location.
+            let stack = {
+                use naijascript::diagnostics::AsStr;
+                naijascript::runtime::RuntimeErrorKind::StackOverflow.as_str()
+            };
+            if rt.errors.diagnostics.iter().any(|d| d.message == stack) {
+                e.blocks.push(rendered.lines().next().unwrap_or_default().to_string());
+                e.stack_overflow = true;
+            } else {
+                e.blocks.push(rendered);
+            }
             e.has_error = rt.errors.diagnostics.iter().any(|d| d.severity == Severity::Error);
         }
         e
@@ -109,6 +124,17 @@ fn corpus_texts() -> Vec<String> {
     // a script that reads input itself (from a file / --eval its stdin is empty; on stdin the
     // script has consumed everything): read_line must return the empty string, not hang
     v.push("shout(\"before\")\nmake l get read_line(\"\")\nshout(l.len())\nshout(read_line(\"\") add \"|\")\n".to_string());
+    // a program over an analysis limit (no optimisation plan) in which lexical and dynamic
+    // binding differ: the CLI must still run it with the resolver's bindings
+    {
+        let n = naijascript::analysis::limits::DEFAULT_CAPS.max_functions as usize + 8;
+        let mut t = String::with_capacity(n * 24);
+        for k in 0..n {
+            t.push_str(&format!("do z{k}() start end\n"));
+        }
+        t.push_str("make a get \"global\"\ndo callee() start shout(a) a get \"set-by-callee\" end\ndo caller() start make a get \"local\" callee() shout(a) end\ncaller()\nshout(a)\n");
+        v.push(t);
+    }
     // scripts around the 8 KiB read size of the CLI's stdin loop
     for target in [8191usize, 8192, 8193, 16_384, 16_385, 30_000] {
         let mut t = String::new();
@@ -190,6 +216,10 @@ impl Space for CliVsLib {
                 if mode == 3 && (build == Build::Dev || cuts.is_empty()) {
                     continue;
                 }
+                // a single argv string is limited to 128 KiB by the kernel: --eval only below that
+                if mode == 1 && src.len() > 100_000 {
+                    continue;
+                }
                 let (input, filename) = match mode {
                     0 => (Input::File(&src), scratch.display().to_string()),
                     1 => (Input::Eval(&src), "<eval>".to_string()),
@@ -217,6 +247,22 @@ impl Space for CliVsLib {
                 }
                 let mut stdout = String::from_utf8_lossy(&r.stdout).to_string();
                 let stderr = String::from_utf8_lossy(&r.stderr).to_string();
+                if want.stack_overflow {
+                    // keep only what was printed before the diagnostic; how many lines a
+                    // program prints on its way into the overflow is depth dependent too
+                    if let Some(pos) = want.blocks.last().and_then(|b| stdout.find(b.as_str())) {
+                        let before: String = stdout[..pos].to_string();
+                        let want_out: String = want.lines.iter().map(|l| format!("{l}\n")).collect();
+                        if !(want_out.starts_with(&before) || before.starts_with(&want_out)) {
+                            return bad("printed-values-differ", json!({"naija": before.chars().take(600).collect::<String>(), "library": want_out.chars().take(600).collect::<String>()}));
+                        }
+                        if r.code == Some(0) {
+                            return bad("exit-status-wrong", json!({"code": r.code, "library_has_error": true}));
+                        }
+                        continue;
+                    }
+                    return bad("diagnostic-block-missing-or-different", json!({"expected_block": want.blocks.last(), "stdout": stdout.chars().take(600).collect::<String>()}));
+                }
                 for b in &want.blocks {
                     if let Some(pos) = stdout.find(b.as_str()) {
                         stdout.replace_range(pos..pos + b.len(), "");
